@@ -487,3 +487,81 @@ def as_list(v, what, size=None):
 def forced_list(vec):
     """NaN -> None"""
     return [None if x != x else x for x in vec]
+
+
+# ------------------------------------------------------------------------------------------------ larger shapes
+@st.composite
+def chain_case(draw, guard=4096):
+    """implication chains (x0 >= 1, x1 >= x0, x2 >= x1, ...) - several propagation rounds, one redundant row per round -
+    interleaved with unrelated rows; boolean and small integer columns, at most 9 columns, rows in a drawn order"""
+    k = draw(st.integers(3, 5))
+    extra_cols = draw(st.integers(2, 4))
+    nc = k + extra_cols
+    ids = list(draw(st.permutations(COL_IDS)))[:nc] if len(COL_IDS) >= nc else ["v%d" % i for i in range(nc)]
+    bounds = [(0, 1)] * nc
+    if draw(st.integers(0, 2)) == 0:
+        j = draw(st.integers(k, nc - 1))
+        bounds[j] = draw(st.sampled_from([(0, 2), (-1, 1), (0, 3)]))
+    rows = []
+    start = draw(st.sampled_from([1, 1, 1, 0]))
+    r0 = [0] * nc
+    r0[0] = 1
+    rows.append([start] + r0)
+    for i in range(k - 1):
+        r = [0] * nc
+        r[i], r[i + 1] = -1, 1
+        rows.append([0] + r)
+    for _ in range(draw(st.integers(1, 3))):
+        r = [0] * nc
+        cols = draw(st.lists(st.integers(k, nc - 1), min_size=1, max_size=min(3, extra_cols), unique=True))
+        for c in cols:
+            r[c] = draw(st.sampled_from([1, 1, -1, 2]))
+        if draw(st.integers(0, 3)) == 0:
+            r[draw(st.integers(0, k - 1))] = draw(st.sampled_from([1, -1]))
+        rows.append([draw(st.integers(-1, 2))] + r)
+    rows = list(draw(st.permutations(rows)))
+    index = list(draw(st.permutations(ROW_IDS)))[:len(rows)] if draw(st.booleans()) and len(ROW_IDS) >= len(rows) else None
+    return {"m": rows, "vars": [[i, lo, hi] for i, (lo, hi) in zip(ids, bounds)], "index": index, "guard": guard}
+
+
+@st.composite
+def sparse_block_case(draw):
+    """a LARGE sparse system (12-20 rows x 56-72 columns, i.e. >= 1000 entries, <= ~5% non-zero) whose rows use pairwise
+    disjoint sets of 1-3 columns, so that the exact solution set is the product of small per-row solution sets"""
+    nr = draw(st.integers(12, 20))
+    nc = draw(st.integers(56, 72))
+    bounds = []
+    for _ in range(nc):
+        bounds.append(draw(st.sampled_from([(0, 1), (0, 1), (0, 1), (0, 1), (0, 3), (-2, 2), (1, 1), (-3, 0)])))
+    free = list(range(nc))
+    m = []
+    for _ in range(nr):
+        w = min(draw(st.sampled_from([1, 2, 2, 3, 3])), len(free))
+        cols = [free.pop(draw(st.integers(0, len(free) - 1))) for _ in range(w)]
+        a = [0] * nc
+        for c in cols:
+            a[c] = draw(st.sampled_from([1, 1, -1, -1, 2, -2, 3, -3]))
+        lo_r, hi_r = row_min(a, bounds), row_max(a, bounds)
+        kind = draw(st.integers(0, 9))
+        b = hi_r - draw(st.integers(0, 1)) if kind < 4 else (lo_r + draw(st.integers(0, 1)) if kind < 6 else
+                                                             (hi_r + 1 if kind == 9 and draw(st.integers(0, 3)) == 0 else draw(st.integers(lo_r, hi_r))))
+        m.append([b] + a)
+    return {"m": m, "vars": [["c%d" % j, lo, hi] for j, (lo, hi) in enumerate(bounds)], "index": None, "sparse": True}
+
+
+def block_truth(case):
+    """per-column exact (min, max) over the solution set of a sparse_block_case, or None when some row is infeasible"""
+    import itertools
+    bounds = [(v[1], v[2]) for v in case["vars"]]
+    rng = {j: (lo, hi) for j, (lo, hi) in enumerate(bounds)}
+    for row in case["m"]:
+        b, a = row[0], row[1:]
+        cols = [j for j, c in enumerate(a) if c]
+        sols = [p for p in itertools.product(*[range(bounds[j][0], bounds[j][1] + 1) for j in cols])
+                if sum(a[j] * x for j, x in zip(cols, p)) >= b]
+        if not sols:
+            return None
+        for i, j in enumerate(cols):
+            vals = [p[i] for p in sols]
+            rng[j] = (min(vals), max(vals))
+    return rng
